@@ -1,4 +1,13 @@
-(** C04 over whole histories of the bind-free fragment: every pass may be run by ParallelStabilize under any fair scheduler (proofs: StaticHistory.v, ParSerial.v). *)
+(** C04 over whole histories of the bind-free fragment: every pass may be run by ParallelStabilize under any fair scheduler (proofs: StaticHistory.v, ParSerial.v).
+
+    STATUS of the mixed statement: FULL ([C04_history_mixed]).  Replace ANY subset of the passes
+    [Stabilize []] of a history by [ParStabilize []] ([par_variant]): the new history RUNS (every
+    operation admissible and successful with no error) and at every boundary the two runs agree on
+    everything but the layout of the recompute heap and the order of the log ([ObsEq]).  Ingredients:
+    the structural congruence of the operations outside the passes (StructCongruence.v), totality of
+    the serial pass (PassPlanProofs.pass_total) and of the parallel one (ParSerial.v), and wf-prover's
+    [Inv] for histories mixing both stabilizers.  [C04_history_mixed_partial] (a common prefix, then
+    steady-state operations only; agreement whenever both run) is kept as a special case. *)
 From incr Require Import Base Heap HeapSpec EngineDefs Engine EngineRun EngineWf Spec EngineInv PassInv PassProofs
      Par ParProofs ParSerial StaticHistory.
 
@@ -11,6 +20,19 @@ Theorem C04_history_bindfree : forall mh os1 o os2 sf sched,
     handlers s2 = handlers s2' /\ updEvents s2 ≡ₚ updEvents s2'.
 Proof. exact C04_history. Qed.
 Print Assumptions C04_history_bindfree.
+
+Theorem C04_history_mixed : forall mh os os' k sA,
+  (0 < mh)%nat -> par_variant os os' -> hist_run (init mh) (take k os) = Some sA ->
+  exists sB, mixed_run (init mh) (take k os') = Some sB /\ ObsEq sA sB.
+Proof. exact mixed_history_full. Qed.
+Print Assumptions C04_history_mixed.
+
+(** the same from any pair of related states, keeping the structural invariant of the second run *)
+Theorem C04_history_mixed_from : forall os os', par_variant os os' -> forall sA sB sA',
+  Inv sA -> ValInv sA -> Inv sB -> ObsEq sA sB -> hist_run sA os = Some sA' ->
+  exists sB', mixed_run sB os' = Some sB' /\ ObsEq sA' sB' /\ Inv sB'.
+Proof. exact mixed_full. Qed.
+Print Assumptions C04_history_mixed_from.
 
 Theorem C04_history_mixed_partial : forall mh os os' k sA sB,
   (0 < mh)%nat -> mixed os os' ->
@@ -29,3 +51,9 @@ Theorem C04_passes_agree : forall sA sB eA eB,
 Proof. exact PassRes_agree. Qed.
 Print Assumptions C04_passes_agree.
 
+(** Non-vacuity: passes 1, 3 and 5 of the 23-operation history [hx] run by ParallelStabilize, each
+    followed by operations outside the steady-state alphabet (AddInput; RemoveInput, Unobserve;
+    Observe, SetVar); the mixed history runs and its observers read the same values *)
+Example C04_history_mixed_full_ex :
+  par_variant hx hx_alt /\ mixed_ok 16 hx_alt = true /\ obsValues (mixed_final hx_alt) = obsValues hx_final.
+Proof. split; [exact hx_alt_variant|]. split; vm_compute; reflexivity. Qed.
